@@ -19,7 +19,7 @@ def build_case(ctx, rng, cid):
                      rng.randint(0, 23), rng.randint(0, 59), rng.randint(0, 59), 0, 0)
     d = ctx.casedir("case%05d" % cid)
     srcs = []
-    shared_mode = rng.choice(["ties", "subsec", None])
+    shared_mode = rng.choice(["ties", "subsec", "subus", None])
     for sid in range(n):
         cnt = rng.choice([0, 1, 1, 2, 3, 5, 8, 20, 60]) if ctx.quick else rng.choice([0, 1, 2, 3, 5, 8, 20, 60, 200])
         codec = rng.choice([None, None, None, "gz", "bz2", "xz", "lz4", "tar"])
